@@ -1,7 +1,8 @@
 #!/bin/sh
 # For every seeded change: apply it to a scratch worktree of /repo's HEAD, run the
 # property's quick check against that worktree (VERIF_REPO) and report whether it
-# was detected.  /repo itself is never touched.  Usage: tools/seeded.sh [name-prefix]
+# was detected.  /repo itself is never touched; evidence and replay files of these runs go to the scratch worktree
+# (VERIF_OUT), so /verif/evidence keeps describing /repo.  Usage: tools/seeded.sh [name-prefix]
 cd "$(dirname "$0")/.." || exit 2
 rc=0
 for d in seeded/${1:-}*/; do
@@ -9,12 +10,11 @@ for d in seeded/${1:-}*/; do
   wt=/dev/shm/seeded_$n
   git -C /repo worktree add -q --detach "$wt" HEAD || exit 2
   if git -C "$wt" apply "$PWD/$d/patch.diff" 2>/dev/null; then
-    out=$(VERIF_REPO=$wt ./run "$p" --tier quick 2>&1 | grep -c '^VIOLATION')
+    out=$(VERIF_REPO=$wt VERIF_OUT=$wt/.vf_out ./run "$p" --tier quick 2>&1 | grep -c '^VIOLATION')
     if [ "$out" -gt 0 ]; then echo "DETECTED $n ($p): $out violation lines"; else echo "MISSED   $n ($p)"; rc=1; fi
   else
     echo "NOAPPLY  $n ($p)"; rc=1
   fi
   git -C /repo worktree remove --force "$wt"
 done
-rm -rf replays
 exit $rc
